@@ -74,6 +74,15 @@ class PandasModel:
             return recv.w(store='fresh', deps=d)
         if name == 'isin':
             return AV(ty='Series', dtype='bool', deps=d)
+        if name == 'itertuples':
+            cols = list((recv.cols or {}).values())
+            ix = kwargs.get('index')
+            with_index = not (ix is not None and has_const(ix) and not cval(ix))
+            if recv.cols is None:
+                return AV(ty='generator', elem=AV(ty='tuple'), deps=d)
+            elts = ([AV(ty='int', idx=('ROWPOS',))] if with_index else []) + [c.only('idx', 'at', 'geo', 'mono', 'taint', 'role').w(ty='int', col=n)
+                                                                             for n, c in recv.cols.items()]
+            return AV(ty='generator', elem=AV(ty='tuple', elts=elts), deps=d)
         if name == 'items':
             return AV(ty='generator', elem=AV(ty='tuple', elts=[AV(ty='str'), AV(ty='Series')]))
         if name == 'tolist':
